@@ -251,3 +251,271 @@ def const_source_rule(chk, db, sigs, rule="SRC"):
                               astx.loc(f, bad), astx.show(bad, 40), consts[0],
                               [list(t) for v in sigs[(sorted(destroying[bad["n"]])[0], bad["n"])] for t in v]), {"where": astx.loc(f)})
     return n
+
+
+# ---- VT: the vtable through which a slot is called describes the object in the storage it is applied to -----------
+class _VTState:
+    def __init__(self, is_ctor, others):
+        self.vt = {"this": None if is_ctor else "A"}
+        self.content = {"this": "EMPTY" if is_ctor else "A"}
+        for i, o in enumerate(others):
+            tag = "B" if i == 0 else "B%d" % i
+            self.vt[o] = tag
+            self.content[o] = tag
+        self.locals = {}          # local storage objects -> content
+        self.problems = []
+
+
+def vt_rule(chk, db, sigs, rule="VT"):
+    """Owners that dispatch through a table of function pointers (`_vtable->slot(storage, ...)`): an abstract interpretation
+    of every constructor / assignment / swap / destructor over (vtable value per object, content tag per storage) in
+    evaluation order. A slot taken from vtable V may only be applied to a source storage whose content is described by V,
+    and at every exit each object's vtable describes its own storage. Finds slots read after the vtable was exchanged, and
+    relocations through the partner's vtable."""
+    slot_fields = {}
+    for (rec, field), variants in sigs.items():
+        if any(v for v in variants):
+            slot_fields.setdefault(field, []).extend(variants)
+    slot_names = set(n for n, v in slot_fields.items() if any(t[0] in ("C", "D") for var in v for t in var))
+    if not slot_names:
+        chk.analysis_broken("%s: no construct/destroy slots derived" % rule)
+        return 0
+    owners = set()
+    for f in db.funcs:
+        if f.get("record") and any(x.get("k") == "mem" and x.get("n") in slot_names for x in astx.all_exprs(f)):
+            owners.add(f["record"])
+    n = 0
+    for f in db.funcs:
+        rec = f.get("record")
+        if rec not in owners or (f.get("body") is None):
+            continue
+        if f["n"] not in ("<ctor>", "<dtor>", "operator=", "swap"):
+            continue
+        base = rec.split("::")[-1].split("<")[0]
+        others = [p["n"] for p in f["params"] if base + "<" in p["ty"].replace(" ", "") or p["ty"].replace("const ", "").replace("&", "").strip() == base]
+        construct = astx.sig(f)
+        n += 1
+        chk.instance(rule)
+        problems = []
+        unknown = None
+        is_ctor = f["n"] == "<ctor>"
+
+        def obj_of(e):
+            """'this' | other name | local name for an expression designating an owner object or storage"""
+            e = astx.strip_casts(e)
+            if e is None:
+                return None
+            if astx.is_this(e):
+                return "this"
+            if e.get("k") == "ref":
+                return e["n"]
+            return None
+
+        def storage_of(e, st):
+            """object name whose storage the expression addresses: addressof(_storage) / addressof(other._storage) / addressof(tmp)"""
+            e = astx.strip_casts(e)
+            if e is None:
+                return None
+            if e.get("k") == "call" and astx.callee(e)[0] == "addressof" and e["a"]:
+                return storage_of(e["a"][0], st)
+            if e.get("k") == "un" and e.get("op") == "&":
+                return storage_of(e["e"], st)
+            if e.get("k") == "mem" and "storage" in e.get("n", ""):
+                return obj_of(e.get("b")) if not astx.is_this(e.get("b")) else "this"
+            if e.get("k") == "ref" and e["n"] in st.locals:
+                return e["n"]
+            if e.get("k") == "ref" and e.get("d") == "param":
+                return ("param", e["n"])
+            return None
+
+        def vt_eval(e, st):
+            """symbolic vtable value of an expression (with side effects of exchange)"""
+            e = astx.strip_casts(e)
+            if e is None:
+                return None
+            k = e.get("k")
+            if k in ("initlist", "parenlist", "construct") and len(e.get("a", [])) == 1:
+                return vt_eval(e["a"][0], st)
+            if k == "mem" and "vtable" in e.get("n", ""):
+                o = "this" if astx.is_this(e.get("b")) else obj_of(e.get("b"))
+                return st.vt.get(o, "?")
+            if k == "call":
+                nm = astx.callee(e)[0]
+                if nm == "exchange" and len(e["a"]) == 2:
+                    tgt = astx.strip_casts(e["a"][0])
+                    old = vt_eval(tgt, st)
+                    new = vt_eval(e["a"][1], st)
+                    if tgt is not None and tgt.get("k") == "mem":
+                        o = "this" if astx.is_this(tgt.get("b")) else obj_of(tgt.get("b"))
+                        st.vt[o] = new
+                    return old
+                if nm == "addressof" and e["a"]:
+                    txt = astx.show(e["a"][0], 60)
+                    if "empty_vtable" in txt:
+                        return "EMPTY"
+                    a0 = astx.strip_casts(e["a"][0])
+                    if a0 is not None and a0.get("k") == "ref":
+                        return "V:" + a0["n"]
+                    return "?"
+                if nm in ("move", "forward") and e["a"]:
+                    return vt_eval(e["a"][0], st)
+            if k == "ref" and e.get("d") == "param":
+                return ("param", e["n"])
+            return "?"
+
+        def apply_slot(vt, slot, args, st, node):
+            sig = None
+            for var in slot_fields.get(slot, []):
+                if var:
+                    sig = var
+            if sig is None:
+                return
+            if vt in (None, "?") or isinstance(vt, tuple):
+                return
+            stor = [storage_of(a, st) for a in args]
+            for kind, a, b in sig:
+                if kind == "CALL":
+                    continue
+
+                def content(s):
+                    if s is None or isinstance(s, tuple):
+                        return "?"
+                    return st.locals.get(s) if s in st.locals else st.content.get(s, "?")
+
+                def setc(s, v):
+                    if s is None or isinstance(s, tuple):
+                        return
+                    if s in st.locals:
+                        st.locals[s] = v
+                    else:
+                        st.content[s] = v
+                if kind == "C" and a is not None and b is not None and a < len(stor) and b < len(stor):
+                    src = content(stor[b])
+                    if src not in ("?",) and vt != src and not (vt == "EMPTY" and src == "EMPTY"):
+                        problems.append((node, "`%s` is taken from the vtable of %s but is applied to a storage that holds %s" % (
+                            slot, _vt_name(vt), _vt_name(src))))
+                    setc(stor[a], vt if vt != "EMPTY" else "EMPTY")
+                elif kind == "D" and a is not None and a < len(stor):
+                    cur = content(stor[a])
+                    if cur not in ("?",) and vt != cur:
+                        problems.append((node, "`%s` of the vtable of %s destroys a storage that holds %s" % (slot, _vt_name(vt), _vt_name(cur))))
+                    setc(stor[a], "EMPTY")
+
+        def visit(e, st):
+            """evaluate an expression for its effects, arguments left to right"""
+            e0 = astx.strip_casts(e)
+            if e0 is None:
+                return
+            k = e0.get("k")
+            if k == "call":
+                fn = e0["f"]
+                nm = astx.callee(e0)[0]
+                if fn.get("k") == "mem" and fn.get("n") in slot_fields:
+                    vt = vt_eval(fn.get("b"), st)
+                    for a in e0["a"]:
+                        visit(a, st)
+                    apply_slot(vt, fn["n"], e0["a"], st, e0)
+                    return
+                if fn.get("k") == "ref" and fn.get("d") == "param" and fn.get("n") in st.locals.get("__slots__", {}):
+                    vt, slot = st.locals["__slots__"][fn["n"]]
+                    apply_slot(vt, slot, e0["a"], st, e0)
+                    return
+                if nm == "swap" and len(e0["a"]) == 2:
+                    a, b = astx.strip_casts(e0["a"][0]), astx.strip_casts(e0["a"][1])
+                    if a is not None and b is not None and a.get("k") == "mem" and b.get("k") == "mem" and "vtable" in a.get("n", ""):
+                        oa = "this" if astx.is_this(a.get("b")) else obj_of(a.get("b"))
+                        ob = "this" if astx.is_this(b.get("b")) else obj_of(b.get("b"))
+                        st.vt[oa], st.vt[ob] = st.vt.get(ob, "?"), st.vt.get(oa, "?")
+                        return
+                if nm == "exchange":
+                    vt_eval(e0, st)
+                    return
+                for a in e0["a"]:
+                    visit(a, st)
+                return
+            if k == "bin" and e0["op"] == "=":
+                l = astx.strip_casts(e0["l"])
+                if l is not None and l.get("k") == "mem" and "vtable" in l.get("n", ""):
+                    v = vt_eval(e0["r"], st)
+                    o = "this" if astx.is_this(l.get("b")) else obj_of(l.get("b"))
+                    st.vt[o] = v
+                    return
+                visit(e0["r"], st)
+                return
+            if k == "new" and e0.get("placement"):
+                s = storage_of(e0["placement"][0], st)
+                if s == "this":
+                    st.content["this"] = "NEW"
+                return
+            for c in astx.children(e0):
+                visit(c, st)
+
+        from . import sets as SP_
+        for p in SP_.paths(f["body"]):
+            st = _VTState(is_ctor, others)
+            # member initialisers, in order
+            for ini in (f.get("inits") or []) if is_ctor else []:
+                e = ini.get("e")
+                args = e.get("a", []) if e is not None else []
+                if ini.get("field") and "vtable" in ini["field"]:
+                    st.vt["this"] = vt_eval(e, st)
+                elif not ini.get("field") and len(args) == 3:
+                    # delegation to the private (vtable, process, storage) constructor: arguments left to right
+                    v1 = vt_eval(args[0], st)
+                    pr = astx.strip_casts(args[1])
+                    slot = None
+                    if pr is not None and pr.get("k") == "mem" and pr.get("n") in slot_fields:
+                        slot = (vt_eval(pr.get("b"), st), pr["n"])
+                    st.vt["this"] = v1
+                    if slot:
+                        apply_slot(slot[0], slot[1], [{"k": "mem", "n": "_storage", "b": {"k": "this"}}, args[2]], st, e)
+                    else:
+                        unknown = "delegation whose slot argument is not a slot of a vtable"
+            slot_params = {}
+            for ev in p:
+                if ev[0] == "decl":
+                    v = ev[1]
+                    if "storage" in (v.get("ty") or ""):
+                        st.locals[v["n"]] = "EMPTY"
+                    elif v.get("init") is not None:
+                        visit(v["init"], st)
+                    continue
+                for e in SP_.event_exprs(ev):
+                    visit(e, st)
+            # exit: every object's vtable describes its storage; temporaries are empty
+            if "NEW" in st.content.values():
+                # the closure constructor: placement new of the target + its own static vtable
+                if st.vt.get("this") in (None, "?", "EMPTY"):
+                    problems.append((None, "a target is constructed but the vtable is %s" % _vt_name(st.vt.get("this"))))
+                continue
+            for o, v in st.vt.items():
+                c = st.content.get(o, "?")
+                if v in ("?",) or isinstance(v, tuple) or c == "?":
+                    continue
+                if f["n"] == "<dtor>" and o == "this":
+                    if c != "EMPTY":
+                        problems.append((None, "the destructor leaves %s in the storage" % _vt_name(c)))
+                    continue
+                if v is None:
+                    problems.append((None, "the vtable of *this is never set"))
+                elif v != c:
+                    problems.append((None, "at exit %s has the vtable of %s but its storage holds %s" % (
+                        "*this" if o == "this" else "`%s`" % o, _vt_name(v), _vt_name(c))))
+            for lname, c in st.locals.items():
+                if lname != "__slots__" and c not in ("EMPTY", "?"):
+                    problems.append((None, "the temporary storage `%s` still holds %s at exit" % (lname, _vt_name(c))))
+        uniq = []
+        for node, msg in problems:
+            if msg not in [m for _n, m in uniq]:
+                uniq.append((node, msg))
+        chk.obligation(rule, construct, False if uniq else (None if unknown else True))
+        for node, msg in uniq[:2]:
+            chk.violation(rule, construct, "vtable-mismatch", "%s: %s" % (astx.loc(f, node if isinstance(node, dict) else None), msg), {"where": astx.loc(f)})
+        if not uniq and unknown:
+            chk.unknown_instance(rule, construct, unknown)
+    return n
+
+
+def _vt_name(v):
+    return {"A": "*this's target", "B": "the source's target", "EMPTY": "nothing (the empty table)", None: "nothing (unset)",
+            "NEW": "the newly constructed target"}.get(v, str(v))
